@@ -270,7 +270,7 @@ Q_RULE = ("cases = one run of one small client program on the real queue under t
           "schedules; distinct = distinct (program shape, final status, sequence of (step kind, thread))")
 
 PROPS['C04'] = dict(
-    id='C04', modules=['CollectionModel.Props.C04'], key=q_key, nontrivial=lambda l: l.get('k') == 'qtrace' and len(l.get('evs', [])) > 4,
+    id='C04', modules=['CollectionModel.Props.C04'], stress='C04stress', key=q_key, nontrivial=lambda l: l.get('k') == 'qtrace' and len(l.get('evs', [])) > 4,
     rule=Q_RULE, timeout=dict(quick=900, thorough=6000),
     exhaustive_subspaces="all schedules of the programs whose DFS finished within the budget (number reported in the qmeta line of the run)",
     level_text="Lean 4 theorems over a transition system at the granularity of the synchronisation operations with an ARBITRARY thread list: C04_inv_reachable (|values| = tokens + consumers holding a token + producers that appended but not sent; tokens <= capacity; appended = removed ++ values – in every reachable state of every interleaving), C04_pop_never_fails, C04_fifo (one FIFO order: each RemoveHead returns the oldest value not yet removed; nothing invented, lost, duplicated, reordered), C04_closed_drained (ok=false only when closed and no token left), C04_backpressure, C04_observers (GetSize <= capacity; AsArray = added-not-removed in FIFO order), C04_linearizable (each step acts on the list as the atomic FIFO spec at a linearisation point inside the call). Hypotheses = client obligations: no AddValue overlapping CloseQueue, RemoveAll only when no AddValue/RemoveHead is in flight; outside them the code violates the property (C04_counterexample_removeall, C04_counterexample_close_during_add: recorded findings). Tie: every recorded real trace is replayed step by step on the model (trace inclusion).",
@@ -287,7 +287,7 @@ PROPS['C05'] = dict(
 
 PROPS['C06'] = dict(
     id='C06', modules=['CollectionModel.Props.C06'],
-    key=lambda l: (l.get('k'), l.get('op'), len(l.get('input', [])), l.get('fan'), l.get('cap'), l.get('status'), l.get('mode'), l.get('steps')),
+    key=lambda l: (l.get('k'), l.get('op'), len(l.get('input', [])), l.get('fan'), l.get('cap'), l.get('status'), l.get('mode'), l.get('steps'), l.get('elem')),
     nontrivial=lambda l: l.get('k') == 'pipe', timeout=dict(quick=900, thorough=6000),
     rule="cases = one run of {feeder, library helper goroutine(s), one reader per output} for Fork, Split or Split+Join on the real "
          "queues under the controlled scheduler (helpers are adopted at their first synchronisation point; the caller's wait "
